@@ -166,6 +166,12 @@ def decide(prop, tier, seed, jobs, t0):
     g_total = g_ok = 0
     ground_out = []
     for g in ground:
+        if g.get("bounded"):
+            bounded.append({"obligation": g["id"], "bound": g["bounded"], "tool": "native enumeration on the real code",
+                            "cases": g.get("size"), "passed": g.get("size") if g["ok"] else None})
+            if not g["ok"]:
+                violations.append({"obligation": g["id"], "ground": g})
+            continue
         g_total += 1
         rec = {k: g[k] for k in ("id", "size", "exhaustive", "what") if k in g}
         if g["ok"]:
